@@ -434,6 +434,9 @@ def family(rec):
         # an invocation that starts inside a (pre-expanded) argument and is completed by tokens after it: cpp refuses it
         # (6.10.3.1: no other tokens are available), cproc completes it; the standard leaves such nesting unspecified (6.10.3.4p4)
         return None
+    if rec['exp'] == 'reject' and rec['reason'] == 'unterminated-args' and 'unterminated-inside-argument' in rec['flags'] and st == 0:
+        # no unspecified nesting involved: 6.10.3.1p1 makes the argument the whole remaining file for its own replacement
+        return 'accept-invalid/invocation-inside-argument-completed-by-tokens-after-the-argument'
     if rec['exp'] == 'reject':
         return 'accept-invalid/' + rec['reason']
     if st == 1:
@@ -764,11 +767,65 @@ def m3_opened_by_other_macro():
                 yield defs + op + 'H ' + ' '.join(w) + '\n'
 
 
+def m3_unbalanced_expansions(full):
+    """object-like macros whose replacement list is an unbalanced parenthesis or a comma, used inside the arguments of
+    function-like macros: only the parentheses and commas WRITTEN in the invocation delimit its arguments (6.10.3p11);
+    those an argument's pre-expansion produces do not (seeded round 8: the nesting counter fed with expanded tokens)"""
+    defs = ('#define LP (\n#define RP )\n#define CM ,\n#define g(b) [b]\n'
+            '#define id(x) x\n#define two(x, y) <x|y>\n#define sel(x, y) y\n#define sp(x) x #x\n#define va(...) {__VA_ARGS__}\n')
+    toks = ('LP', 'RP', 'CM', '1', ',', '(', ')', 'g')
+    outers = (('id(%s)', 0), ('two(%s)', 1), ('sel(%s)', 1), ('id(id(%s))', 0), ('sp(%s)', 0), ('va(%s)', None), ('id(two(%s))', 1), ('two(id(%s), 2)', 0))
+    for n in range(1, 5 if full else 4):
+        for w in itertools.product(toks if full or n < 3 else toks[:7], repeat=n):
+            depth, commas, ok = 0, 0, True
+            for t in w:
+                if t == '(':
+                    depth += 1
+                elif t == ')':
+                    depth -= 1
+                    if depth < 0:
+                        ok = False
+                        break
+                elif t == ',' and depth == 0:
+                    commas += 1
+            if not ok or depth != 0 or not any(t in ('LP', 'RP', 'CM') for t in w):
+                continue
+            for o, need in outers:
+                if need is not None and commas != need:
+                    continue
+                for suffix in ('', ' ) + id(2))', ' RP ;', ' (3)'):
+                    yield defs + o % ' '.join(w) + suffix + '\n'
+
+
+def m3_deep_chains(full):
+    """chains of macros of every length 1..N (seeded round 8: the frame array grows when the 11th, 22nd, 43rd frame is
+    live; the parameter frame was stepped through a pointer into the old array): function-like macros forwarding their
+    parameter, two-parameter chains, object-like chains, mixed chains, nested invocations and a chain inside a chain"""
+    N = 90 if full else 48
+    for n in range(1, N):
+        f = '#define F0(x) x\n' + ''.join('#define F%d(x) F%d(x)\n' % (k, k - 1) for k in range(1, n + 1))
+        yield f + 'F%d(1) F%d(a b) F%d()\n' % (n, n, n)
+        yield f + 'F%d(F%d(2)) F%d(F%d)(3)\n' % (n, n, n, max(n // 2, 1))
+        l = '#define L0(p, q) ((p) + (q))\n' + ''.join('#define L%d(p, q) L%d(p, q)\n' % (k, k - 1) for k in range(1, n + 1))
+        yield l + 'L%d(p, 7) L%d(, ) L%d((a, b), c)\n' % (n, n, n)
+        o = '#define O0 1\n' + ''.join('#define O%d O%d\n' % (k, k - 1) for k in range(1, n + 1))
+        yield o + 'O%d + O%d\n' % (n, n)
+        m = '#define M0(x) [x]\n' + o + ''.join('#define M%d(x) O%d M%d(x)\n' % (k, k % 3, k - 1) for k in range(1, n + 1))
+        yield m + 'M%d(O%d) M%d(M1(z))\n' % (n, n, n)
+        yield '#define id(x) x\n#define g(x) <x>\n' + 'id(' * n + 'g(1)' + ')' * n + ' ' + 'g(' * n + 'id(2)' + ')' * n + '\n'
+        v = '#define V0(...) {__VA_ARGS__}\n' + ''.join('#define V%d(a, ...) V%d(__VA_ARGS__, a)\n' % (k, k - 1) for k in range(1, n + 1))
+        yield v + 'V%d(1, 2, 3)\n' % n
+        s2 = '#define S0(x) #x x\n' + ''.join('#define S%d(x) S%d(x)\n' % (k, k - 1) for k in range(1, n + 1))
+        yield s2 + 'S%d(O) S%d(S0(q))\n' % (n, n)
+
+
 def m3_sources(full):
     out = []
     out.extend(m3_stringify_and_plain())
     out.extend(m3_parameter_names())
     out.extend(m3_opened_by_other_macro())
+    out.extend(m3_unbalanced_expansions(full))
+    out.extend(m3_deep_chains(full))
     for defs, text in ((EX3_DEFS, EX3_TEXT), (EX4_DEFS, EX4_TEXT), (EX7_DEFS, EX7_TEXT)):
         out.extend(perturbations(defs, text))
     out.extend(EX6)
